@@ -241,29 +241,21 @@ impl CharacterData {
                 Some(0f64)
             } else if let Some(hexval) = text
                 .strip_prefix("0x")
-                .and_then(|hextxt| u64::from_str_radix(hextxt, 16).ok())
+                .or(text.strip_prefix("0X"))
+                .and_then(|hextxt| radix_digits_to_f64(hextxt, 4))
             {
-                Some(hexval as f64)
-            } else if let Some(hexval) = text
-                .strip_prefix("0X")
-                .and_then(|hextxt| u64::from_str_radix(hextxt, 16).ok())
-            {
-                Some(hexval as f64)
+                Some(hexval)
             } else if let Some(binval) = text
                 .strip_prefix("0b")
-                .and_then(|bintxt| u64::from_str_radix(bintxt, 2).ok())
+                .or(text.strip_prefix("0B"))
+                .and_then(|bintxt| radix_digits_to_f64(bintxt, 1))
             {
-                Some(binval as f64)
-            } else if let Some(binval) = text
-                .strip_prefix("0B")
-                .and_then(|bintxt| u64::from_str_radix(bintxt, 2).ok())
-            {
-                Some(binval as f64)
+                Some(binval)
             } else if let Some(octval) = text
                 .strip_prefix('0')
-                .and_then(|octtxt| u64::from_str_radix(octtxt, 8).ok())
+                .and_then(|octtxt| radix_digits_to_f64(octtxt, 3))
             {
-                Some(octval as f64)
+                Some(octval)
             } else {
                 // normal float conversion
                 text.parse().ok()
@@ -381,6 +373,29 @@ impl PartialOrd for CharacterData {
 }
 
 impl Eq for CharacterData {}
+
+/// convert a string of hexadecimal, octal or binary digits of any length to the nearest f64
+///
+/// The leading (up to 124) bits are collected exactly, the remaining digits only contribute to the
+/// exponent and to the rounding direction, so values above u64::MAX are converted correctly too.
+fn radix_digits_to_f64(digits: &str, bits_per_digit: u32) -> Option<f64> {
+    if digits.is_empty() {
+        return None;
+    }
+    let mut mantissa: u128 = 0;
+    let mut exponent: i32 = 0;
+    for c in digits.chars() {
+        let digit = u128::from(c.to_digit(1 << bits_per_digit)?);
+        if mantissa >> 120 == 0 {
+            mantissa = (mantissa << bits_per_digit) | digit;
+        } else {
+            // more than 64 significant bits are already present: a dropped non-zero digit only matters for rounding
+            exponent = exponent.saturating_add(bits_per_digit as i32);
+            mantissa |= u128::from(digit != 0);
+        }
+    }
+    Some(mantissa as f64 * 2f64.powi(exponent))
+}
 
 fn escape_text(input: &str) -> Cow<str> {
     if input.contains(['&', '>', '<', '\'', '"']) {
